@@ -124,6 +124,8 @@ FSameAs(r) == IF Raised(r) THEN {"SameAsRaised"}
                    F(r.in.law, a.sh = b.sh /\ a.f = b.f /\ a.ids = b.ids /\
                         \A k \in 1..Size(a.sh) : (~a.m[k] /\ ~b.m[k] /\ ~IsCornerIx(a.sh, Unflat(a.sh, k)))
                                => RCloseRel(a.d[k], b.d[k], Tau, RMul("1/1000000000000000000000000000000", MaxAbs(b.d))))
+\* an operation must leave the object it was called on as it was: shape, every value, every mask bit, folding, labels
+FUnchanged(r) == IF Raised(r) THEN {"UnchangedRaised"} ELSE F(r.in.law, r.out.s = r.out.t)
 FTotal(r) == \* total over non-corner entries conserved (no masks inside)
     F("TotalConserved", RCloseRel(TotalNC(r.out.s), TotalNC(r.in.s), Tau, "0"))
 
@@ -146,6 +148,7 @@ Failed(r) ==
       [] r.op = "misc_combine" -> FMiscCombine(r)
       [] r.op = "scramble"    -> FScramble(r)
       [] r.op = "same_as"     -> FSameAs(r)
+      [] r.op = "unchanged"   -> FUnchanged(r)
       [] OTHER                -> {"UnknownOp"}
 
 Init == i = 0
